@@ -99,5 +99,9 @@ func PermuteMaps(v *Val, variant int) *Val {
 	if (v.T == Map || v.T == List) && len(v.Kids) == 0 && variant%2 == 1 {
 		out.NonNil = !v.NonNil
 	}
+	if v.T == Blob && len(v.B) == 0 && variant%2 == 1 {
+		// nil-vs-empty bytes (singular, list element, map value, oneof member); no effect on strings
+		out.NonNil = !v.NonNil
+	}
 	return out
 }
